@@ -140,6 +140,24 @@ def gen_cases(seed, tier, stream, n_quick, n_thorough, **domkw):
     depth = 2 if tier == "quick" else 3
     cases = []
     for i in range(n):
+        if i % 7 == 3 and not domkw:
+            # pairing stress: parameter dependent cut / intersection, several rows in disjoint regions, many small calls
+            # (row-wise rejection loops must keep every point with its own parameter row)
+            for _ in range(60):
+                dom = gen_geo.gen_domain(rng, max_depth=1, allow=("bool",), k=int(rng.choice([3, 5, 8])), dep=True, strong=True,
+                                         dim=int(rng.choice([1, 2, 2, 3])))
+                if dom["spec"].get("op") in ("cut", "isect") and dom["info"]["dep"]:
+                    break
+            calls = []
+            for lvl in ("domain", "sampler"):
+                calls += [{"lvl": lvl, "target": "interior", "fn": "random", "by": "n", "n": 1} for _ in range(12)]
+                calls += [{"lvl": lvl, "target": "interior", "fn": "random", "by": "n", "n": int(m)} for m in (2, 3, 2)]
+            calls += [{"lvl": "sampler", "target": "interior", "fn": "lhs", "by": "n", "n": 3},
+                      {"lvl": "sampler", "target": "interior", "fn": "grid", "by": "n", "n": 7}]
+            dom["info"]["stress"] = True
+            cases.append({"spec": dom["spec"], "rows": dom["rows"], "info": dom["info"], "k": dom["k"], "calls": calls,
+                          "seed": int(rng.integers(0, 2 ** 31))})
+            continue
         dom = gen_geo.gen_domain(rng, max_depth=int(rng.integers(1, depth + 1)), **domkw)
         calls = plan_calls(rng, dom, tier)
         cases.append({"spec": dom["spec"], "rows": dom["rows"], "info": dom["info"], "k": dom["k"], "calls": calls,
